@@ -57,7 +57,7 @@ func Walk(v Visitor, n Node) {
 			Walk(v, n.Member)
 		}
 	case *BranchStatement:
-		if n != nil {
+		if n != nil && n.Label != nil {
 			Walk(v, n.Label)
 		}
 	case *CallExpression:
@@ -76,7 +76,9 @@ func Walk(v Visitor, n Node) {
 		}
 	case *CatchStatement:
 		if n != nil {
-			Walk(v, n.Parameter)
+			if n.Parameter != nil {
+				Walk(v, n.Parameter)
+			}
 			Walk(v, n.Body)
 		}
 	case *ConditionalExpression:
@@ -117,9 +119,13 @@ func Walk(v Visitor, n Node) {
 		}
 	case *FunctionLiteral:
 		if n != nil {
-			Walk(v, n.Name)
-			for _, p := range n.ParameterList.List {
-				Walk(v, p)
+			if n.Name != nil {
+				Walk(v, n.Name)
+			}
+			if n.ParameterList != nil {
+				for _, p := range n.ParameterList.List {
+					Walk(v, p)
+				}
 			}
 			Walk(v, n.Body)
 		}
@@ -187,8 +193,12 @@ func Walk(v Visitor, n Node) {
 	case *TryStatement:
 		if n != nil {
 			Walk(v, n.Body)
-			Walk(v, n.Catch)
-			Walk(v, n.Finally)
+			if n.Catch != nil {
+				Walk(v, n.Catch)
+			}
+			if n.Finally != nil {
+				Walk(v, n.Finally)
+			}
 		}
 	case *UnaryExpression:
 		if n != nil {
